@@ -223,16 +223,40 @@ def resume(P, pt, path, store, tag, scratch, seed, obj_type, modes, learn=False)
     return c
 
 
+def checkpoint_logger_class():
+    """The logger subclass is saved with the reconstruction, so it must be importable by name when the file is loaded:
+    it is created once at module level (lazily: it needs the library import)."""
+    if "CheckpointLogger" not in globals():
+        from quantem.diffractive_imaging.logger_ptychography import LoggerPtychography
+
+        class CheckpointLogger(LoggerPtychography):
+            cfg = {}
+
+            def log_iter(self, object_model, probe_model, dataset_model, iter, *a, **kw):
+                super().log_iter(object_model, probe_model, dataset_model, iter, *a, **kw)
+                c = type(self).cfg
+                if c.get("target") is not None and iter + 1 == c["at"]:
+                    c["target"].save(c["path"], mode="o", store=c["store"], save_raw_data=True, verbose=0)
+
+        CheckpointLogger.__qualname__ = "CheckpointLogger"
+        CheckpointLogger.__module__ = __name__
+        globals()["CheckpointLogger"] = CheckpointLogger
+    return globals()["CheckpointLogger"]
+
+
 def w_config(item, seed=0, n=4, scratch="/tmp"):
     """One shard: a configuration x one resume path (all split points), or x "pairs" (all pairs of split points)."""
     obj_type, modes, okind, sname, part = item[:5]
     learn = bool(item[5]) if len(item) > 5 else False
     sched = item[6] if len(item) > 6 else None
     pairs = part == "pairs"
-    paths = [] if pairs else [PATHS[int(part)]]
+    paths = [] if part in ("pairs", "hook") else [PATHS[int(part)]]
+    neutral = item[7] if len(item) > 7 else None
     t = Tally()
-    base = {"obj_type": obj_type, "modes": modes, "optimizer": okind, "scheduler": sname, "n": n, "learn_dataset": learn, "constraint_schedule": sched}
+    base = {"obj_type": obj_type, "modes": modes, "optimizer": okind, "scheduler": sname, "n": n, "learn_dataset": learn, "constraint_schedule": sched, "neutral": neutral}
     cls0 = {"optimizer": okind, "scheduler": sname, "learn_dataset": learn, "constraint_schedule": str(sched)}
+    if neutral:
+        cls0["neutral"] = neutral
     sub = os.path.join(scratch, f"c05-{os.getpid()}")
     os.makedirs(sub, exist_ok=True)
     cc = {"okind": okind, "sname": sname, "learn": learn}
@@ -254,6 +278,18 @@ def w_config(item, seed=0, n=4, scratch="/tmp"):
             Pb = build(obj_type, modes, seed, learn)
             b = start(Pb, okind, sname, learn, sched)
             for k in range(0, n + 1) if paths else []:
+                if neutral == "failed_noraw_save":
+                    # a write-once save (without raw data) onto an existing path is refused: it must leave nothing behind
+                    # on the live object either (temporaries attached for the save), whatever is saved or loaded later
+                    blocked = os.path.join(sub, "exists.zip")
+                    open(blocked, "wb").close()
+                    try:
+                        b.save(blocked, mode="w", store="zip", save_raw_data=False, verbose=0)
+                        raise Broken("a write-once save onto an existing file was not refused")
+                    except FileExistsError:
+                        pass
+                    finally:
+                        os.remove(blocked)
                 saved = observe(b)
                 for path, store in paths:
                     case = dict(base, k=k, path=path, store=store)
@@ -273,6 +309,40 @@ def w_config(item, seed=0, n=4, scratch="/tmp"):
             # saving/cloning must not disturb the original either
             if paths:
                 compare(t, observe(b), R, "saved_original_equals_uninterrupted", dict(cls0, path="original:" + paths[0][0]), dict(base, k="all", path=paths[0][0], store=paths[0][1]))
+            if part == "hook":
+                # a checkpoint written from INSIDE the run: a logger subclass whose per-iteration hook saves the
+                # reconstruction once iteration k is complete (the documented place for periodic checkpoints). The run
+                # that wrote it must end like the uninterrupted run, and the checkpoint must continue like it.
+                from quantem.diffractive_imaging.ptychography import Ptychography
+
+                CheckpointLogger = checkpoint_logger_class()
+
+                for k in range(1, n + 1):
+                    for store in ("zip", "dir"):
+                        case = dict(base, k=k, path="hook_raw", store=store)
+                        cls = dict(cls0, path="hook_raw")
+                        target = os.path.join(sub, f"hook{k}.zip" if store == "zip" else f"hook{k}")
+                        try:
+                            H = start(build(obj_type, modes, seed, learn), okind, sname, learn, sched)
+                            H.logger = CheckpointLogger(log_dir=os.path.join(sub, "tb"), run_prefix=f"k{k}{store}", log_images_every=10**9, log_probe_images=False)
+                            CheckpointLogger.cfg = {"target": H, "at": k, "path": target, "store": store}
+                            run_iters(H, 0, n, sched, cc)
+                            CheckpointLogger.cfg = {}
+                            compare(t, observe(H), R, "run_that_checkpointed_from_its_hook_equals_uninterrupted", cls, case)
+                            c = Ptychography.from_file(target, auto_reload_dataset=False)
+                            c.verbose = 0
+                            if int(c.num_iters) != k:
+                                t.fail(dict(cls, relation="checkpoint_from_hook_holds_k_iterations", field="iteration_count"), case, f"checkpoint written from log_iter after iteration {k} reports num_iters={int(c.num_iters)}")
+                            run_iters(c, k, n, sched, cc)
+                            compare(t, observe(c), R, "resumed_equals_uninterrupted", cls, case)
+                        except Broken:
+                            raise
+                        except Exception as ex:
+                            t.fail(dict(cls, relation="resume_path_raises", field=type(ex).__name__), case, f"checkpoint from the logger hook at k={k} ({store}) raised {type(ex).__name__}: {str(ex)[:300]}")
+                        finally:
+                            CheckpointLogger.cfg = {}
+                            shutil.rmtree(target, ignore_errors=True) if os.path.isdir(target) else (os.path.exists(target) and os.remove(target))
+                        t.case(key=case, nontrivial=k < n, outcome=[k, "hook", store])
             if pairs:
                 for k1, k2 in itertools.combinations(range(0, n + 1), 2):
                     for (p1, s1), (p2, s2) in [(("raw", "zip"), ("noraw_dset", "dir")), (("clone", "-"), ("raw", "dir")), (("noraw_dset", "zip"), ("clone", "-"))]:
@@ -295,7 +365,7 @@ def w_config(item, seed=0, n=4, scratch="/tmp"):
                         t.case(key=case, nontrivial=True, outcome=[k1, k2, p1, p2])
     finally:
         shutil.rmtree(sub, ignore_errors=True)
-    t.sample(dict(base, splits=list(range(n + 1)), part="all pairs of splits" if pairs else f"{paths[0][0]}/{paths[0][1]}"), cap=2)
+    t.sample(dict(base, splits=list(range(n + 1)), part="all pairs of splits" if pairs else ("checkpoint from the logger hook" if part == "hook" else f"{paths[0][0]}/{paths[0][1]}")), cap=2)
     return t
 
 
@@ -350,16 +420,23 @@ def run(ctx):
     if not q:
         kw_cfgs += [(("potential", 2, "adam_eps", "linear"), "opt_again"), (("pure_phase", 1, "sgd_momentum", "exp"), "opt_again"), (("potential", 2, "sgd", "exp"), "probe_later"), (("complex", 2, "adam_eps", "none"), "probe_later"), (("potential", 2, "sgd", "exp"), "probe_later_opt_only")]
     items += [c + (p, False, sc) for c, sc in kw_cfgs for p in parts]
+    # checkpoints written from the per-iteration logger hook, at every iteration, both stores
+    hook_cfgs = [("complex", 1, "sgd", "linear"), ("complex", 1, "adam_eps", "exp")] if q else [(o, m, ok, sn) for (o, m) in [("complex", 1), ("potential", 2)] for ok in ("sgd", "adam_eps") for sn in ("none", "exp", "linear", "plateau", "cyclic")]
+    items += [c + ("hook", False) for c in hook_cfgs]
+    # a refused save (write-once, without raw data) before every interruption, with learnable dataset parameters
+    items += [c + (p, True, None, "failed_noraw_save") for c in learn_cfgs[:2] for p in learn_parts if p != "pairs"]
     ctx.coverage["bounds"] = {"iterations": n, "splits": list(range(n + 1)), "paths": [f"{p}/{s}" for p, s in PATHS], "configs": len(configs), "pairs_of_splits": not q}
     ctx.pmap(w_config, items, chunk=1, label="resume lattice", seed=ctx.seed, n=n, scratch=ctx.scratch)
 
 
 def replay(ctx, case):
-    if isinstance(case.get("k"), list):
+    if case.get("path") == "hook_raw":
+        part = "hook"
+    elif isinstance(case.get("k"), list):
         part = "pairs"
     else:
         part = [i for i, (p, s) in enumerate(PATHS) if p == case["path"] and s == case["store"]][0]
-    t = w_config((case["obj_type"], case["modes"], case["optimizer"], case["scheduler"], part, bool(case.get("learn_dataset")), case.get("constraint_schedule")), seed=ctx.seed, n=case["n"], scratch=ctx.scratch)
+    t = w_config((case["obj_type"], case["modes"], case["optimizer"], case["scheduler"], part, bool(case.get("learn_dataset")), case.get("constraint_schedule"), case.get("neutral")), seed=ctx.seed, n=case["n"], scratch=ctx.scratch)
     want = (case.get("k"), case.get("path"), case.get("store"))
     for f in t.fails:
         c = f["case"]
